@@ -26,11 +26,15 @@ type vhObs struct {
 	failAt int // index of the operation that panics with errVhStream (-1: never)
 	ops    int
 	trace  bool // protocol mode: every operation is a visible event
+	slowAt int  // native schedule forcing: the operation with this index (1-based) sleeps
 }
 
 func (o *vhObs) step() {
 	k := o.ops
 	o.ops++
+	if o.slowAt > 0 && k+1 == o.slowAt {
+		time.Sleep(300 * time.Millisecond)
+	}
 	if o.trace {
 		vhEvent("io", k, 0)
 	}
